@@ -220,6 +220,20 @@ def u_tset(c):
     code0 = SymObj("code0", Val.ref(z3.IntVal(c.new_id())))
     fn = SymObj("fn", Val.ref(z3.IntVal(c.new_id())), attrs={"__code__": code0, "__globals__": {}, "__name__": "f", "__defaults__": None, "__closure__": None}, closed=True)
     proceed = SymObj("proceed", Val.ref(z3.IntVal(c.new_id())))
+    if c.choose(2, "already-fully-tooled"):
+        # the function was tooled by the decorator / in place: EVERY variable is instrumented and overlays rely on that.  A probe
+        # on some of its variables must not swap in a narrower variant (an active overlay on another variable would lose events):
+        # every capture set is served by the function's own, fully instrumented code
+        info0, token0 = SymObj("info0", Val.ref(z3.IntVal(c.new_id()))), SymObj("token0", Val.ref(z3.IntVal(c.new_id())))
+        fn.attrs["__ptera_info__"] = info0
+        fn.attrs["__ptera_token__"] = token0
+        ts = it.call(it.get_global(TR, "TransformSet"), [fn, proceed], dict(set_conformer=False))
+        st, base = run(it, it.getattr(ts, "transform_for"), [None])
+        c.prove("tooled-base/registered-as-it-is", st == "ok" and base[0] is fn and base[1] is code0 and base[2] is info0 and base[3] is token0)
+        _El = it.get_global(S, "Element")
+        st, v = run(it, it.getattr(ts, "transform_for"), [[it.call(_El, [], dict(name="p", capture="p"))]])
+        c.prove("tooled-base/every-capture-set-keeps-the-fully-instrumented-code", st == "ok" and v is base and tcalls == [], only=["C05", "C02"])
+        return
     ts = it.call(it.get_global(TR, "TransformSet"), [fn, proceed], dict(set_conformer=False))
     c.prove("base/private-copy-shares-code-and-is-discarded", len(made) == 1 and made[0].attrs.get("code") is code0
             and made[0].attrs.get("__ptera_discard__") is True and ts.fields["base_function"] is made[0])
